@@ -33,7 +33,9 @@ LEVEL = "model_checking"
 ALPHA = "ACDEFGHILNQSTVWY"          # no K / R (cleavage); P (proline rule) and M (N-terminal clipping) only in the
 INNER = ALPHA + "PM"                # interior: never first (of a piece or a protein), never right before the K / R
 PREFIXES = ["decoy_", "rev_", "DECOY-", "decoy_"]
-NAME_STYLES = ["T%d", "sp|P%05d|PROT_HUMAN", "wf|target%d", "t%d.1", "MIX"]
+NAME_STYLES = ["T%d", "sp|P%05d|PROT_HUMAN", "wf|target%d", "t%d.1", "MIX", "INFIX"]
+# "INFIX": target accessions that CONTAIN the decoy prefix, but not at their start (un<prefix>1, sp|P1|<PREFIX>HV1, ...): a decoy
+# is an entry whose name STARTS with the prefix
 # "MIX": accessions whose first letter is a letter of the decoy prefix (c1, d1, e1, o1, y1, c2, ...): distinct proteins that
 # only differ in that letter
 MODES = ["mirror", "make_decoys_rev", "make_decoys_shuffle", "none", "partial"]
@@ -107,7 +109,10 @@ def render(case, workdir):
             return _rand_pep(rng, max_length + 1 + int(rng.integers(0, 3)))
         return ""
 
-    tnames = [("cdeoy"[k % 5] + str(k // 5 + 1)) if style == "MIX" else style % (k + 1) for k in range(n)]
+    if style == "INFIX":
+        tnames = [("un%s%d" % (prefix, k + 1)) if k % 2 == 0 else ("sp|P%d|%sHV%d" % (k + 1, prefix.upper().replace("-", "_"), k + 1)) for k in range(n)]
+    else:
+        tnames = [("cdeoy"[k % 5] + str(k // 5 + 1)) if style == "MIX" else style % (k + 1) for k in range(n)]
     tseqs, layout = [], []
     for row in inc:
         ids = [int(x) for x in rng.permutation(row)] if len(row) else []
